@@ -5,7 +5,7 @@ IDS="$@"
 [ -z "$IDS" ] && IDS=$(python3 -c "import json;print(' '.join(json.load(open('$(dirname $(readlink -f $0))/props.json')).keys()))")
 for id in $IDS; do
   s=$(date +%s)
-  $(dirname $(readlink -f $0))/check.sh $id $TIER > /tmp/verif_all_$id.log 2>&1
+  $(dirname $(readlink -f $0))/check.sh $id $TIER > ${VERIF_LOGDIR:-/tmp}/verif_all_$id.log 2>&1
   rc=$?
-  echo "$id rc=$rc $(( $(date +%s) - s ))s $(grep -c '^VIOLATION' /tmp/verif_all_$id.log) violations; $(tail -1 /tmp/verif_all_$id.log)"
+  echo "$id rc=$rc $(( $(date +%s) - s ))s $(grep -c '^VIOLATION' ${VERIF_LOGDIR:-/tmp}/verif_all_$id.log) violations; $(tail -1 ${VERIF_LOGDIR:-/tmp}/verif_all_$id.log)"
 done
